@@ -617,6 +617,12 @@ class Analysis:
             f = fact_cmp(op, b[2], b[3])
             if not f[1].is_const():
                 out.append(("poly",) + f)
+            else:
+                # a comparison of constants: nothing to learn when it holds; when it cannot hold (`2 == 0` being true) the state is infeasible
+                cv = f[1].const_value()
+                holds = (cv >= 0) if f[0] == ">=" else ((cv == 0) if f[0] == "==" else ((cv != 0) if f[0] == "!=" else True))
+                if not holds:
+                    out.append(("poly", ">=", Poly.const(-1)))
         elif k == "not":
             out.extend(self.cond_facts(b[1], not truth))
         elif k == "const":
